@@ -348,9 +348,9 @@ def block_body(ctx, truncate_file=False):
 
 def run(ctx):
     hyp_run(ctx, 'c13.tx', st.tuples(tx_desc(), st.integers(0, 10 ** 6)).map(list),
-            tx_body(ctx), ctx.pick(120, 4000))
-    hyp_run(ctx, 'c13.block', BLOCK_CASE, block_body(ctx), ctx.pick(250, 4000))
-    hyp_run(ctx, 'c13.block_truncated', BLOCK_CASE, block_body(ctx, True), ctx.pick(60, 1000))
+            tx_body(ctx), ctx.pick(120, 20000), frac=0.3)
+    hyp_run(ctx, 'c13.block', BLOCK_CASE, block_body(ctx), ctx.pick(250, 20000), frac=0.75)
+    hyp_run(ctx, 'c13.block_truncated', BLOCK_CASE, block_body(ctx, True), ctx.pick(60, 5000))
 
 
 def replay(ctx, check, case):
